@@ -17,10 +17,27 @@ RULE = ("complete products per sub-lattice: D1 dictionary pages (physical type x
         "(int32/int64 x miniblock width 0..64 x count x block shape x v1/v2), D4 RLE booleans, D5 dictionary "
         "fallback, D6 unsupported layouts (must raise), D8 dictionaries filling their index width, D9 foreign chunk "
         "statistics {absent, null_count, full, min/max only} x six level run layouts x four page splits on a "
-        "20-value column. evaluations = cells; counts.files = files decoded; "
+        "20-value column (incl. PLAIN booleans). D1c dictionaries of converted types (DATE, TIMESTAMP, INT96, "
+        "DECIMAL on INT32 and on byte arrays, UINT_32, TIME_MILLIS) x v1/v2 x categories, and dictionary pages "
+        "under LZ4_RAW. D10 chunks of 2-3 dictionary-encoded or RLE-boolean pages (four splits x null patterns x "
+        "RLE_/PLAIN_DICTIONARY x categories) and 2-3 row groups with different, overlapping dictionaries. D3b "
+        "delta pages x logical type x codec/compressed flag x {required, optional without nulls} x page splits x "
+        "miniblock sizes 32/64/128 (small values only). D5c chunks with dictionary fallback / pure dictionary "
+        "chunks read as categorical: asked for by the caller (refusal or values by label), or implied by the "
+        "pandas metadata of an arrow-style writer {with, without encoding_stats, without created_by}. D11 every "
+        "ordered choice of 3 of 8 (quick: of the first 6) column kinds in one two-row-group file x per-column "
+        "null_count statistics. D12 "
+        "writer habits (PLAIN_DICTIONARY-labelled dictionary page, dictionary_page_offset 0, no created_by, empty "
+        "row groups, zero-value pages). D2 also runs DECIMAL on FIXED_LEN_BYTE_ARRAY / BYTE_ARRAY; in the quick "
+        "tier the combos outside the main list and LZ4_RAW run with 1- and 2-page splits only. An integer column "
+        "must yield integer cells unless the column dtype is float64. "
+        "evaluations = cells; counts.files = files decoded; "
         "a cell is non-trivial when >= 1 file with >= 1 value was decoded and compared")
 ASSUMPTIONS = ["specpq writer emits valid Parquet (self-checked by specpq reader on every file in thorough tier, "
-               "on every cell's first file in quick tier)", "cramjam codecs trusted", "flat columns only"]
+               "on every cell's first file in quick tier)", "cramjam codecs trusted", "flat columns only",
+               "python-lzo is not installed (D6 LZO_CODEC: pages labelled LZO must be refused)",
+               "pandas metadata of foreign files (D5c) is the arrow layout: pandas_type categorical, numpy_type = "
+               "type of the codes, metadata.num_categories"]
 
 CREATED_BY = "parquet-mr version 1.12.3 (build f8dced182c4c1fbdec6ccb3185537b5a01e6ed6b)"
 
@@ -105,13 +122,30 @@ def combos():
                   lambda v: v / 100.0, ("f", 8))
     c["dec64"] = (T_INT64, None, CT["DECIMAL"], None, 3, 18, [0, 1, -1, 123456789, -5, 1000],
                   lambda v: v / 1000.0, ("f", 8))
+    # DECIMAL stored as big-endian two's complement bytes: fixed width (parquet-mr legacy, Hive, Impala) and
+    # variable width with minimal length (avro-parquet)
+    unscaled = [0, 1, -1, 12345, -99999, 2 ** 38 + 7]
+    dec = (lambda b: int.from_bytes(b, "big", signed=True) / 100.0)
+    for name, ptype, tl in (("dec_flba5", T_FLBA, 5), ("dec_flba16", T_FLBA, 16), ("dec_ba", T_BYTE_ARRAY, None)):
+        phys = [v.to_bytes(tl or (v.bit_length() + 8) // 8, "big", signed=True) for v in unscaled]
+        c[name] = (ptype, tl, CT["DECIMAL"], None, 2, 12, phys, dec, ("f", 8))
     return c
 
 
 QUICK_COMBOS = ["bool", "int32", "int64", "double", "double_nan", "utf8", "bytes", "uint8", "uint32", "uint64",
                 "ts_us", "ts_ns_lt", "date", "flba4", "dec32", "int96"]
+# combos outside QUICK_COMBOS run in the quick tier at codec 0 x {v1, v2 without flag} only (D2)
+QUICK_COMBOS_LIGHT = ["float", "utf8_lt", "json", "int8", "int16", "int32c", "uint16", "int64c", "time_ms", "time_us",
+                      "ts_ms", "ts_ms_lt", "ts_us_lt", "dec64", "dec_flba5", "dec_flba16", "dec_ba"]
 # BOOLEAN is never dictionary-encoded by the format (no dictionary encoding defined for it)
 DICT_TYPES = ["int32", "int64", "float", "double", "utf8", "bytes", "flba4"]
+# dictionaries whose entries need a logical conversion (D1c)
+DICT_CONV_TYPES = ["date", "ts_us", "ts_ms", "int96", "dec32", "uint32", "time_ms", "dec_ba", "dec_flba5"]
+DICT_CONV_TYPES_QUICK = ["date", "ts_us", "int96", "dec32", "uint32", "time_ms", "dec_ba"]
+# delta-encoded columns of these types (D3b); values are kept small (miniblock widths < 29, see KF-C03-delta-w29)
+DELTA_TYPES = ["int32", "int64", "date", "uint8", "uint32", "dec32", "dec64", "ts_us", "time_ms", "time_us"]
+DELTA_TYPES_QUICK = ["int32", "int64", "date", "uint8", "dec32", "ts_us", "time_ms"]
+ARROW_CREATED_BY = "parquet-cpp-arrow version 12.0.0"
 NULLPATS = ["none", "first", "last", "alt", "all"]
 
 
@@ -173,9 +207,75 @@ def points(tier):
     for t in DICT_TYPES:
         for v in (1, 2):
             pts.append({"d": "D5", "type": t, "v": v})
-    for kind in ("DELTA_LENGTH_BYTE_ARRAY", "DELTA_BYTE_ARRAY", "BYTE_STREAM_SPLIT", "BIT_PACKED_LEVELS", "DELTA_NULLS"):
+    for kind in ("DELTA_LENGTH_BYTE_ARRAY", "DELTA_BYTE_ARRAY", "BYTE_STREAM_SPLIT", "BIT_PACKED_LEVELS", "DELTA_NULLS",
+                 "LZO_CODEC"):
         for v in (1, 2):
             pts.append({"d": "D6", "kind": kind, "v": v})
+    pts += points_wave4(tier)
+    return pts
+
+
+def points_wave4(tier):
+    """sub-lattices added after the fourth review (new "d" names: C12's points_native does not pick them up)"""
+    thorough = tier == "thorough"
+    pts = []
+    # D2 light: the remaining type combos at codec 0 (thorough runs every combo x every codec already)
+    if not thorough:
+        for t in QUICK_COMBOS_LIGHT:
+            for pv in ("v1", "v2a"):
+                pts.append({"d": "D2", "type": t, "codec": 0, "pv": pv, "tier": tier, "light": 1})
+        # a codec outside fastparquet's decompress-into set (LZ4_RAW hands back a buffer object)
+        for t in ("int64", "utf8", "bool", "double"):
+            for pv in ("v1", "v2c", "v2u", "v2a"):
+                pts.append({"d": "D2", "type": t, "codec": 7, "pv": pv, "tier": tier, "light": 1})
+        for t in ("int64", "utf8"):
+            for pv in ("v1", "v2c", "v2u", "v2a"):
+                for cats in (0, 1):
+                    pts.append({"d": "D1c", "type": t, "width": 3, "v": 1 if pv == "v1" else 2, "enc": "RLE_DICTIONARY",
+                                "cats": cats, "tier": tier, "codec": 7, "pv": pv})
+    # D1c: dictionaries of converted / logical types
+    for t in (DICT_CONV_TYPES if thorough else DICT_CONV_TYPES_QUICK):
+        for w in ((1, 2, 3, 8, 12) if thorough else (2,)):
+            for v in (1, 2):
+                for cats in (0, 1):
+                    pts.append({"d": "D1c", "type": t, "width": w, "v": v, "enc": "RLE_DICTIONARY", "cats": cats,
+                                "tier": tier})
+    # D10: chunks of several dictionary-encoded / RLE-boolean pages, row groups with different dictionaries
+    for t in (DICT_TYPES + ["ts_us", "date"] if thorough else ["int64", "utf8", "double", "flba4", "ts_us"]):
+        for w in ((3, 8, 9, 17) if thorough else (3, 9)):
+            for v in (1, 2):
+                for cats in (0, 1):
+                    pts.append({"d": "D10", "kind": "dict", "type": t, "width": w, "v": v, "cats": cats, "tier": tier})
+    for v in (1, 2):
+        for codec in (0, 1):
+            pts.append({"d": "D10", "kind": "bool", "v": v, "codec": codec, "tier": tier})
+    # D3b: delta pages x logical type x codec / compressed flag x page splits x miniblock shapes
+    for t in (DELTA_TYPES if thorough else DELTA_TYPES_QUICK):
+        for codec, pv in ([(c, q) for c in (0, 1, 2, 6, 7, 4) for q in ("v1", "v2c", "v2u", "v2a")] if thorough else
+                          [(0, "v1"), (0, "v2a"), (1, "v1"), (1, "v2c"), (1, "v2u"), (1, "v2a")]):
+            pts.append({"d": "D3b", "type": t, "codec": codec, "pv": pv, "tier": tier})
+    # D5c: dictionary fallback / pure dictionary chunks read as categoricals: asked for by the caller, or implied by
+    # the pandas metadata of a foreign writer (with and without ColumnMetaData.encoding_stats)
+    for t in (DICT_TYPES if thorough else ["int64", "utf8", "double"]):
+        for v in (1, 2):
+            for layout in ("fallback", "dict"):
+                for mode in ("cats", "pm_es", "pm_noes", "pm_nocreator"):
+                    if layout == "dict" and mode == "cats":
+                        continue    # D1
+                    pts.append({"d": "D5c", "type": t, "v": v, "layout": layout, "mode": mode})
+    # D11: files of three columns (types, encodings, null statistics differ per column), two row groups
+    for v in (1, 2):
+        for st in (0, 1):
+            for codec in ((0, 1, 6, 7) if thorough else (1,)):
+                pts.append({"d": "D11", "v": v, "stats": st, "codec": codec, "kinds": 8 if thorough else 6})
+    # D9 on PLAIN booleans (pages of more than 8 values)
+    for v in (1, 2):
+        for st in ("none", "nc"):
+            pts.append({"d": "D9", "type": "bool", "v": v, "stats": st})
+    # D12: header habits of real writers
+    for kind in ("dict_enc_plain_dictionary", "dict_offset_zero", "no_created_by", "empty_row_group", "empty_page"):
+        for v in (1, 2):
+            pts.append({"d": "D12", "kind": kind, "v": v})
     return pts
 
 
@@ -190,7 +290,8 @@ def explore(run, tier):
 
 def crash_sig(point, res):
     s = {"d": point["d"], "symptom": res["outcome"]}
-    for k in ("type", "width", "v", "enc", "longval", "count", "codec", "pv", "kind", "cats", "dsize", "stats"):
+    for k in ("type", "width", "v", "enc", "longval", "count", "codec", "pv", "kind", "cats", "dsize", "stats",
+              "layout", "mode"):
         if k in point:
             s[k] = point[k]
     return s
@@ -208,7 +309,8 @@ class Cell:
     def bad(self, symptom, detail, **extra):
         s = {"d": self.point["d"], "symptom": symptom}
         s.update(getattr(self, "ctx", {}))
-        for k in ("type", "width", "v", "enc", "longval", "count", "codec", "pv", "kind", "cats", "dsize", "stats"):
+        for k in ("type", "width", "v", "enc", "longval", "count", "codec", "pv", "kind", "cats", "dsize", "stats",
+                  "layout", "mode"):
             if k in self.point:
                 s[k] = self.point[k]
         s.update(extra)
@@ -285,6 +387,15 @@ def compare(c, df, colname, exp, combo, what, rel=1e-12, cat=False, has_null=Fal
         return
     kind, size = combo[8]
     dk = O.dtype_kind(s.dtype)
+    if kind in ("i", "u") and dk[0] != "f":
+        # first_diff compares an integer with a float through float(): a float cell (a value that went through
+        # float64 on its way, exact only below 2**53) in an integer / object / categorical column is not "exactly
+        # the value the file encodes".  A float64 COLUMN for integers with nulls stays C17's business.
+        for i, (g, e) in enumerate(zip(got, exp)):
+            if e is not None and isinstance(g, float):
+                c.bad("wrong_value", "%s: row %d is the float %r in a %s column, file encodes the integer %r"
+                      % (what, i, g, s.dtype, e), inexact=1)
+                return
     if cat:
         if dk[0] != "category":
             c.bad("wrong_dtype", "%s: asked for category, dtype %s" % (what, s.dtype))
@@ -555,7 +666,7 @@ def run_D2(c, p):
         mask = nullmask(pat, n)
         vals = [None if mask[i] else pool[i % len(pool)] for i in range(n)]
         exp = expected(combo, vals, p["type"])
-        for split in _splits(n):
+        for split in _splits(n, 2 if p.get("light") else 3):
             for defprog in (("auto", "rle", "bp") if rep == "optional" else ("auto",)):
                 for nrg in (1, 2):
                     if nrg == 2 and (len(split) != 2 or defprog != "auto"):
@@ -665,6 +776,299 @@ def run_D5(c, p):
             compare(c, df, "c", expected(combo, vals, p["type"]), combo, what, has_null=any(mask))
 
 
+
+def run_D1c(c, p):
+    """D1 over dictionaries whose entries need a logical conversion, and over further codecs"""
+    return run_D1(c, p)
+
+
+def _dictionary_of(pool, k=None):
+    out = []
+    for v in pool:
+        if not any(repr(v) == repr(d) for d in out):
+            out.append(v)
+    return out[:k] if k else out
+
+
+def run_D10(c, p):
+    """several non-PLAIN data pages in one chunk: every page but the first lands at an offset in the output"""
+    from mc.specpq import writer as W
+    cb = combos()
+    ver = p["v"]
+    if p["kind"] == "bool":
+        combo = cb["bool"]
+        n = 20
+        first = True
+        for rep, pat in [("required", "none")] + [("optional", q) for q in NULLPATS]:
+            mask = nullmask(pat, n)
+            vals = [None if mask[i] else bool((i * 5 // 3) % 2) for i in range(n)]
+            for split in ([9, 11], [1, 19], [19, 1], [8, 8, 4]):
+                for prog in ("auto", "bp"):
+                    chunk = {"rows": vals, "codec": p["codec"],
+                             "pages": [{"n": k, "enc": "RLE", "v": ver, "idx_prog": prog} for k in split]}
+                    data = W.write_file({"created_by": CREATED_BY, "columns": [_col("c", combo, rep)],
+                                         "row_groups": [{"c": chunk}]})
+                    what = "D10 RLE bool %s nulls=%s split=%s prog=%s" % (rep, pat, split, prog)
+                    c.ctx = {"nulls": pat if rep == "optional" else "required", "pages": len(split)}
+                    if first:
+                        _selfcheck(c, data, "c", vals, what)
+                        first = False
+                    df = _try_read(c, data, what)
+                    c.files += 1
+                    if df is not None:
+                        compare(c, df, "c", vals, combo, what, has_null=any(mask))
+        return
+    combo = cb[p["type"]]
+    w = p["width"]
+    dictionary = _dictionary_of(combo[6])
+    cats = ["c"] if p["cats"] else None
+    n = 17
+    first = True
+    for rep, pat in [("required", "none")] + [("optional", q) for q in NULLPATS]:
+        mask = nullmask(pat, n)
+        vals = [None if mask[i] else dictionary[(i * 3 + 1) % len(dictionary)] for i in range(n)]
+        exp = expected(combo, vals, p["type"])
+        for split in ([1, 16], [8, 9], [16, 1], [5, 6, 6]):
+            for enc in ("RLE_DICTIONARY", "PLAIN_DICTIONARY"):
+                chunk = {"rows": vals, "dictionary": dictionary, "codec": 0,
+                         "pages": [{"n": k, "enc": enc, "v": ver, "idx_width": w} for k in split]}
+                data = W.write_file({"created_by": CREATED_BY, "columns": [_col("c", combo, rep)],
+                                     "row_groups": [{"c": chunk}]})
+                what = "D10 dict %s nulls=%s split=%s %s%s" % (rep, pat, split, enc, " categories" if cats else "")
+                c.ctx = {"nulls": pat if rep == "optional" else "required", "pages": len(split), "rgs": 1}
+                if first:
+                    _selfcheck(c, data, "c", vals, what)
+                    first = False
+                df = _try_read(c, data, what, cats)
+                c.files += 1
+                if df is not None:
+                    compare(c, df, "c", exp, combo, what, cat=bool(cats), has_null=any(mask))
+        # two / three row groups, each with its own dictionary (overlapping, in a different order)
+        dicts = [dictionary[:3], list(reversed(dictionary[1:])), dictionary[:1] + dictionary[3:]]
+        for nrg in (2, 3):
+            rgs = []
+            allv = []
+            for j in range(nrg):
+                dj = dicts[j]
+                m = nullmask(pat, 6)
+                vj = [None if m[i] else dj[(i + j) % len(dj)] for i in range(6)]
+                allv += vj
+                rgs.append({"c": {"rows": vj, "dictionary": dj, "codec": 0,
+                                  "pages": [{"n": 6, "enc": "RLE_DICTIONARY", "v": ver, "idx_width": w}]}})
+            data = W.write_file({"created_by": CREATED_BY, "columns": [_col("c", combo, rep)], "row_groups": rgs})
+            what = "D10 dict %s nulls=%s %d row groups with different dictionaries%s" % (
+                rep, pat, nrg, " categories" if cats else "")
+            c.ctx = {"nulls": pat if rep == "optional" else "required", "pages": 1, "rgs": nrg}
+            df = _try_read(c, data, what, cats)
+            c.files += 1
+            if df is not None:
+                compare(c, df, "c", expected(combo, allv, p["type"]), combo, what, cat=bool(cats),
+                        has_null=any(v is None for v in allv))
+
+
+def run_D3b(c, p):
+    """delta pages of logical types, under codecs and compressed flags, split over pages, with other miniblock sizes"""
+    from mc.specpq import writer as W
+    combo = combos()[p["type"]]
+    codec, pv = p["codec"], p["pv"]
+    ver = 1 if pv == "v1" else 2
+    flag = {"v1": None, "v2c": True, "v2u": False, "v2a": None}[pv]
+    pool = [v for v in combo[6] if abs(v) < 100000]
+    first = True
+    for rep in ("required", "optional"):
+        for n, splits, shapes in ((12, ([12], [5, 7], [1, 11], [4, 4, 4]), ((128, 4),)),
+                                  (150, ([150], [70, 80]), ((128, 4), (128, 2), (128, 1), (256, 4), (512, 4)))):
+            vals = [pool[(i * 5 + i // 7 + 1) % len(pool)] for i in range(n)]
+            exp = expected(combo, vals, p["type"])
+            for split in splits:
+                for block, mini in shapes:
+                    chunk = {"rows": vals, "codec": codec,
+                             "pages": [{"n": k, "enc": "DELTA_BINARY_PACKED", "v": ver, "compressed": flag,
+                                        "delta": {"block": block, "mini": mini}} for k in split]}
+                    data = W.write_file({"created_by": CREATED_BY, "columns": [_col("c", combo, rep)],
+                                         "row_groups": [{"c": chunk}]})
+                    what = "D3b %s n=%d split=%s block=%d/%d" % (rep, n, split, block, mini)
+                    c.ctx = {"nulls": "required" if rep == "required" else "none", "pages": len(split),
+                             "per_mini": block // mini}
+                    if first:
+                        _selfcheck(c, data, "c", vals, what)
+                        first = False
+                    df = _try_read(c, data, what)
+                    c.files += 1
+                    if df is not None:
+                        compare(c, df, "c", exp, combo, what)
+
+
+def _pandas_md(name, ncat):
+    import json
+    return json.dumps({"index_columns": [], "column_indexes": [], "pandas_version": "2.0.0",
+                       "columns": [{"name": name, "field_name": name, "pandas_type": "categorical",
+                                    "numpy_type": "int8", "metadata": {"num_categories": ncat, "ordered": False}}]})
+
+
+def run_D5c(c, p):
+    """chunks read as categoricals: a chunk with dictionary fallback must be refused or decoded by value, never
+    relabelled; the pandas metadata of another writer must not make a plain to_pandas() fail or relabel"""
+    from mc.specpq import writer as W
+    cb = combos()
+    combo = cb[p["type"]]
+    ver, layout, mode = p["v"], p["layout"], p["mode"]
+    pool = combo[6]
+    dictionary = _dictionary_of(pool[:3])
+    n = 8
+    for rep, pat in [("required", "none"), ("optional", "alt"), ("optional", "first")]:
+        mask = nullmask(pat, n)
+        for a in ((1, 4, 7) if layout == "fallback" else (n,)):
+            vals = []
+            for i in range(n):
+                if mask[i]:
+                    vals.append(None)
+                elif i < a:
+                    vals.append(dictionary[i % len(dictionary)])
+                else:
+                    vals.append(pool[i % len(pool)])
+            pages = [{"n": a, "enc": "RLE_DICTIONARY", "v": ver}]
+            if a < n:
+                pages.append({"n": n - a, "enc": "PLAIN", "v": ver})
+            chunk = {"rows": vals, "codec": 0, "dictionary": dictionary, "pages": pages,
+                     "encoding_stats": mode != "pm_noes"}
+            spec = {"created_by": CREATED_BY if mode == "cats" else ARROW_CREATED_BY,
+                    "columns": [_col("c", combo, rep)], "row_groups": [{"c": chunk}]}
+            if mode == "pm_nocreator":
+                spec["created_by"] = None
+            if mode != "cats":
+                spec["kv"] = [("pandas", _pandas_md("c", len(dictionary)))]
+            data = W.write_file(spec)
+            what = "D5c %s %s %s nulls=%s dict_rows=%d" % (layout, mode, rep, pat, a)
+            c.ctx = {"nulls": pat if rep == "optional" else "required"}
+            _selfcheck(c, data, "c", vals, what)
+            exp = expected(combo, vals, p["type"])
+            c.files += 1
+            if mode == "cats":
+                # the caller asks for a categorical although not every page is dictionary-encoded: the documented
+                # answer is a refusal; values by label would be fine, too
+                try:
+                    df = read_back(data, ["c"])
+                except Exception:
+                    c.values += len(exp)
+                    continue
+                compare(c, df, "c", exp, combo, what + " categories", cat=True, has_null=any(mask))
+                continue
+            df = _try_read(c, data, what)
+            if df is None:
+                continue
+            from mc import oracles as O
+            is_cat = O.dtype_kind(df["c"].dtype)[0] == "category" if list(df.columns) == ["c"] else False
+            compare(c, df, "c", exp, combo, what, cat=is_cat, has_null=any(mask))
+
+
+D11_SPECS = [("int64", "optional", "alt", "plain"), ("int32", "optional", "none", "plain"),
+             ("utf8", "optional", "first", "dict"), ("bool", "required", "none", "plain"),
+             ("int64", "required", "none", "dict"), ("double", "optional", "all", "plain"),
+             ("uint8", "optional", "last", "plain"), ("ts_us", "optional", "alt", "dict")]
+
+
+def run_D11(c, p):
+    """every ordered choice of three of eight column kinds in one file: chunk offsets, per-column statistics"""
+    from mc.specpq import writer as W
+    cb = combos()
+    ver, codec = p["v"], p["codec"]
+    n = 8
+    made = []
+    for t, rep, pat, kind in D11_SPECS:
+        combo = cb[t]
+        mask = nullmask(pat, n)
+        if kind == "dict":
+            dictionary = _dictionary_of(combo[6], 4)
+            vals = [None if mask[i] else dictionary[i % len(dictionary)] for i in range(n)]
+            chunk = {"rows": vals, "dictionary": dictionary, "codec": codec,
+                     "pages": [{"n": n, "enc": "RLE_DICTIONARY", "v": ver}]}
+        else:
+            vals = [None if mask[i] else combo[6][i % len(combo[6])] for i in range(n)]
+            chunk = {"rows": vals, "codec": codec,
+                     "pages": [{"n": 3, "enc": "PLAIN", "v": ver}, {"n": n - 3, "enc": "PLAIN", "v": ver}]}
+        if p["stats"]:
+            chunk["stats"] = {"null_count": sum(mask)}
+        made.append((t, rep, combo, chunk, vals, any(mask)))
+    first = True
+    for perm in itertools.permutations(range(p.get("kinds", len(D11_SPECS))), 3):
+        cols, rg = [], {}
+        for j, k in enumerate(perm):
+            t, rep, combo, chunk, vals, hn = made[k]
+            cols.append(_col("c%d" % j, combo, rep))
+            rg["c%d" % j] = chunk
+        data = W.write_file({"created_by": CREATED_BY, "columns": cols, "row_groups": [rg, rg]})
+        what = "D11 columns %s" % ([D11_SPECS[k][0] + "/" + D11_SPECS[k][3] for k in perm],)
+        if first:
+            for j, k in enumerate(perm):
+                _selfcheck(c, data, "c%d" % j, made[k][4] * 2, what)
+            first = False
+        df = _try_read(c, data, what)
+        c.files += 1
+        if df is None:
+            continue
+        if list(df.columns) != ["c0", "c1", "c2"]:
+            c.bad("wrong_columns", "%s: columns %r" % (what, list(df.columns)))
+            continue
+        for j, k in enumerate(perm):
+            t, rep, combo, chunk, vals, hn = made[k]
+            c.ctx = {"col": t + "/" + D11_SPECS[k][3], "pos": j}
+            compare(c, df[["c%d" % j]], "c%d" % j, expected(combo, vals * 2, t), combo, what + " column %d" % j,
+                    has_null=hn)
+
+
+def run_D12(c, p):
+    """layout habits of real writers that the other sub-lattices never emit"""
+    from mc.specpq import writer as W
+    cb = combos()
+    kind, ver = p["kind"], p["v"]
+    for t in ("int64", "utf8", "bool"):
+        combo = cb[t]
+        pool = combo[6]
+        for rep, pat in (("required", "none"), ("optional", "none"), ("optional", "alt")):
+            n = 6
+            mask = nullmask(pat, n)
+            vals = [None if mask[i] else pool[i % len(pool)] for i in range(n)]
+            plain = {"rows": vals, "codec": 0, "pages": [{"n": n, "enc": "PLAIN", "v": ver}]}
+            spec = {"created_by": CREATED_BY, "columns": [_col("c", combo, rep)]}
+            variants = []
+            if kind == "dict_enc_plain_dictionary":
+                # parquet-mr (v1 pages) labels the dictionary page itself PLAIN_DICTIONARY
+                if t == "bool":
+                    continue
+                dictionary = _dictionary_of(pool)
+                ch = {"rows": vals, "codec": 0, "dictionary": dictionary, "dict_enc": 2,
+                      "pages": [{"n": n, "enc": "PLAIN_DICTIONARY", "v": ver}]}
+                variants.append(("", [{"c": ch}], vals))
+            elif kind == "dict_offset_zero":
+                variants.append(("", [{"c": dict(plain, dictionary_page_offset=0)}], vals))
+            elif kind == "no_created_by":
+                spec["created_by"] = None
+                variants.append(("", [{"c": plain}], vals))
+            elif kind == "empty_row_group":
+                for sizes in ((0, 6), (6, 0), (3, 0, 3), (0,)):
+                    rgs, e0 = [], 0
+                    for k in sizes:
+                        rgs.append({"c": {"rows": vals[e0:e0 + k], "codec": 0,
+                                          "pages": [{"n": k, "enc": "PLAIN", "v": ver}] if k else []}})
+                        e0 += k
+                    variants.append((" sizes=%s" % (sizes,), rgs, vals[:e0]))
+            else:   # empty_page: a data page of zero values between / before / after the others
+                for split in ([0, 6], [3, 0, 3], [6, 0]):
+                    ch = {"rows": vals, "codec": 0, "pages": [{"n": k, "enc": "PLAIN", "v": ver} for k in split]}
+                    variants.append((" split=%s" % (split,), [{"c": ch}], vals))
+            for label, rgs, rows in variants:
+                data = W.write_file(dict(spec, row_groups=rgs))
+                what = "D12 %s %s %s nulls=%s%s" % (kind, t, rep, pat, label)
+                c.ctx = {"nulls": pat if rep == "optional" else "required", "type": t}
+                _selfcheck(c, data, "c", rows, what)
+                df = _try_read(c, data, what)
+                c.files += 1
+                if df is not None:
+                    compare(c, df, "c", expected(combo, rows, t), combo, what,
+                            has_null=any(r is None for r in rows))
+
+
 def run_D6(c, p):
     """layouts outside the supported set: must raise, never return values"""
     from mc.specpq import writer as W
@@ -679,6 +1083,11 @@ def run_D6(c, p):
         combo = cb["double"]
         page = {"n": n, "enc": W.ENC[kind], "v": ver}
         rep, vals = "required", [1.0, 2.0, 3.0, 4.0, 5.0]
+    elif kind == "LZO_CODEC":
+        # pages compressed with a codec the installation cannot decompress (labelled LZO; python-lzo is absent)
+        combo = cb["int32"]
+        page = {"n": n, "enc": "PLAIN", "v": ver}
+        rep, vals = "required", [1, 2, 3, 4, 5]
     elif kind == "BIT_PACKED_LEVELS":
         if ver == 2:
             return {"ok": True, "outcome": "not_expressible", "nontrivial": False}
@@ -690,8 +1099,10 @@ def run_D6(c, p):
         page = {"n": n, "enc": "DELTA_BINARY_PACKED", "v": ver}
         rep, vals = "optional", [1, None, 3, 4, None]
     col = _col("c", combo, rep)
-    data = W.write_file({"created_by": CREATED_BY, "columns": [col],
-                         "row_groups": [{"c": {"rows": vals, "codec": 0, "pages": [page]}}]})
+    chunk = {"rows": vals, "codec": 0, "pages": [page]}
+    if kind == "LZO_CODEC":
+        chunk.update({"codec": 1, "codec_label": 3})
+    data = W.write_file({"created_by": CREATED_BY, "columns": [col], "row_groups": [{"c": chunk}]})
     c.files += 1
     try:
         df = read_back(data)
@@ -712,8 +1123,10 @@ def run_D6(c, p):
 LEVEL_TEXT = ("Bounded-exhaustive lattice of foreign layouts emitted by an independent spec-level writer (dictionary "
               "index widths 0..32 with every run mixture, all page splits of a short column, level run programs, "
               "delta miniblock widths 0..64, codecs, v1/v2 with every compressed-flag state, dictionary fallback, "
-              "unsupported encodings) decoded by the real reader and compared cell by cell with the values the "
-              "layout program encodes.")
+              "unsupported encodings and codecs, dictionaries and delta pages of logical types, chunks of several "
+              "non-PLAIN pages, row groups with different dictionaries, categorical reads asked for or implied by "
+              "foreign pandas metadata, three-column files, byte-array decimals) decoded by the real reader and "
+              "compared cell by cell with the values the layout program encodes.")
 LEVEL_NOTE = ("Trusted: specpq writer (each cell's files are re-read by the specpq validator), cramjam. Flat columns "
               "only (nested is C15); nullable-extension-ness not judged (C17).")
 TECHNIQUE = "bounded exhaustive enumeration of spec-encoder layout programs, decoded by the real reader"
